@@ -32,7 +32,7 @@ for u in UNITS:
     if u["unit"] == "crypto_merkle":
         u["trusted"] = [STUB]
 
-native_unit("merkle_native", "winter-crypto", "crypto", "native/merkle_bounded.rs", ["C10", "C06"],
+native_unit("merkle_native", "winter-crypto", "crypto", "native/merkle_bounded.rs", ["C10", "C06", "C03"],
             ["MerkleTree::prove_batch", "MerkleTree::verify_batch", "BatchMerkleProof::get_root", "BatchMerkleProof::into_paths",
              "BatchMerkleProof::from_paths", "merkle::map_indexes", "merkle::normalize_indexes"],
             "batch openings verify, decompress to the single paths in list order and re-compress; every single-element / shape / position mutation is rejected without a panic",
